@@ -21,9 +21,19 @@ NPROC = int(os.environ.get("DSIM_WORKERS", str(min(16, os.cpu_count() or 4))))
 DEFAULT_SEEDS = {"quick": 20260924, "thorough": 777000111}
 
 
+def optimized(hashseed) -> bool:
+    return int(hashseed) % 4 == 3 and os.environ.get("DSIM_NO_OPTIMIZED_WORKERS") != "1"
+
+
 def _env(hashseed: int) -> dict:
     e = dict(os.environ)
     e["PYTHONHASHSEED"] = str(hashseed)
+    # host configuration as a function of the hash seed (so every replay reproduces it): one interpreter in four runs with
+    # asserts compiled out (python -O), as deployments that set PYTHONOPTIMIZE do
+    if optimized(hashseed):
+        e["PYTHONOPTIMIZE"] = "1"
+    else:
+        e.pop("PYTHONOPTIMIZE", None)
     e["PYTHONPATH"] = VERIF + os.pathsep + REPO
     e["DSIM_REPO"] = REPO
     e["PYTHONDONTWRITEBYTECODE"] = "1"
@@ -403,6 +413,7 @@ def write_evidence(check, prop: str, tier: str, seed: int, agg: dict, nviol: int
         "runs_per_hour": int(agg["runs"] / max(agg["wall"], 1e-6) * 3600),
         "seeds_per_hour": int(agg.get("logical_runs", agg["runs"]) / max(agg["wall"], 1e-6) * 3600),
         "hash_seeds": agg["hashseeds"],
+        "hash_seeds_of_workers_run_with_asserts_compiled_out": [h for h in agg["hashseeds"] if optimized(h)],
         "workers": NPROC,
         "workers_finished_normally": agg["ended"],
         "real_vs_stub": check.REAL_VS_STUB,
